@@ -43,7 +43,8 @@ ASSUMPTIONS = [
     "Next+materializer handler is one step: the handler only touches subscriber-local state",
     "the harness mirrors submatview/handler.go + materializer.updateView/reset (20 lines) around the real View implementations; "
     "LocalMaterializer itself is a goroutine loop and cannot be scheduled",
-    "ACL filtering of payloads is out of scope (C09): every payload is readable",
+    "subscriber tokens are either unrestricted or a real policy authorizer that denies service read on listed names; the "
+    "expected view is the direct query restricted by the same rule (CheckServiceNode.CanRead / ConfigEntry.CanRead)",
     "ViewExact accepts, besides the state after the last write <= delivered index, any recorded state whose direct query "
     "reported exactly the delivered index (the catalog can change a result without moving its query index, e.g. when an "
     "instance is re-registered under another service name; that is a blocking-query matter, C06)",
@@ -79,11 +80,15 @@ TIERS = {
         "mc": [("health", dict(MaxSubs=1, MaxCommits=2), False)],
         # the code as it is: the model is expected to exhibit the recorded findings
         "asis": [("gap", dict(GGap="FALSE", Profile=P("one"), NC=1, MaxSubs=1))],
-        "edge": [("one", dict(Profile=P("one"), NC=1, MaxCommits=2, MaxSubs=2, **ASIS))],
+        "edge": [("one", dict(Profile=P("one"), NC=1, MaxCommits=2, MaxSubs=2, **ASIS)),
+                 # one register that renames an instance AND changes its node; subscribers on the old / new name
+                 ("ren", dict(Profile=P("ren"), NC=1, MaxCommits=2, MaxSubs=1, **ASIS)),
+                 # one transaction with three events on one subject; a restricted and an unrestricted subscriber
+                 ("aclf", dict(Profile=P("aclf1"), NC=2, MaxCommits=1, MaxSubs=1, **ASIS))],
         "sim": [("mixed", dict(Profile=P("mixed"), MaxCommits=3, MaxRestores=1, Ttls="{FALSE, TRUE}", **ASIS), 40, 30),
                 ("one-resume", dict(Profile=P("one"), MaxCommits=3, MaxSubs=3, MaxRestores=1, Ttls="{FALSE, TRUE}", **ASIS), 40, 30)],
         "rnd": (40, 50),
-        "chunk": 10000,
+        "chunk": 16000,
     },
     "thorough": {
         "mc": [("one+cache+restore", dict(Profile=P("one"), MaxSubs=1, MaxRestores=1, Ttls="{FALSE, TRUE}"), True),
@@ -91,18 +96,25 @@ TIERS = {
                ("mixed", dict(Profile=P("mixed"), MaxSubs=1), False),
                ("acl", dict(Profile=P("acl"), MaxCommits=2), False),
                ("wild+cache", dict(Profile=P("wild"), MaxSubs=1, Ttls="{TRUE}"), False),
-               ("conn", dict(Profile=P("conn"), MaxSubs=1, Ttls="{FALSE, TRUE}"), False)],
+               ("conn", dict(Profile=P("conn"), MaxSubs=1, Ttls="{FALSE, TRUE}"), False),
+               ("ren", dict(Profile=P("ren"), MaxSubs=1), False),
+               ("aclf", dict(Profile=P("aclf"), MaxCommits=2, MaxSubs=2), False)],
         "asis": [("gap", dict(GGap="FALSE", Profile=P("one"), NC=1, MaxSubs=1)),
                  ("restore", dict(GRestore="FALSE", Profile=P("one"), MaxCommits=2, MaxRestores=1))],
         "edge": [("one+cache", dict(Profile=P("one"), NC=1, MaxCommits=2, MaxSubs=2, Ttls="{TRUE}", **ASIS)),
                  ("one+restore", dict(Profile=P("one"), NC=1, MaxCommits=2, MaxSubs=1, MaxRestores=1, **ASIS)),
                  ("conn", dict(Profile=P("conn"), NC=1, MaxCommits=2, MaxSubs=1, **ASIS)),
                  ("wild", dict(Profile=P("wild"), NC=1, MaxCommits=2, MaxSubs=1, **ASIS)),
-                 ("acl", dict(Profile=P("acl"), NC=1, MaxCommits=2, MaxSubs=2, **ASIS))],
+                 ("acl", dict(Profile=P("acl"), NC=1, MaxCommits=2, MaxSubs=2, **ASIS)),
+                 ("ren", dict(Profile=P("ren"), NC=1, MaxCommits=2, MaxSubs=1, **ASIS)),
+                 ("rep", dict(Profile=P("rep"), NC=1, MaxCommits=2, MaxSubs=1, **ASIS)),
+                 ("aclf", dict(Profile=P("aclf1"), NC=2, MaxCommits=1, MaxSubs=1, **ASIS))],
         "sim": [("mixed", dict(Profile=P("mixed"), MaxCommits=4, MaxRestores=1, Ttls="{FALSE, TRUE}", **ASIS), 100, 30),
                 ("health", dict(MaxCommits=4, MaxRestores=1, Ttls="{FALSE, TRUE}", **ASIS), 100, 30),
                 ("acl", dict(Profile=P("acl"), MaxCommits=4, MaxRestores=1, Ttls="{FALSE, TRUE}", **ASIS), 60, 30),
-                ("one-resume", dict(Profile=P("one"), MaxCommits=4, MaxSubs=3, MaxRestores=1, Ttls="{FALSE, TRUE}", **ASIS), 150, 35)],
+                ("one-resume", dict(Profile=P("one"), MaxCommits=4, MaxSubs=3, MaxRestores=1, Ttls="{FALSE, TRUE}", **ASIS), 150, 35),
+                ("renrep", dict(Profile=P("renrep"), MaxCommits=4, MaxSubs=2, Ttls="{FALSE, TRUE}", **ASIS), 100, 30),
+                ("aclf", dict(Profile=P("aclf"), MaxCommits=3, MaxSubs=2, Ttls="{FALSE, TRUE}", **ASIS), 100, 30)],
         "rnd": (120, 80),
         "chunk": 25000,
     },
@@ -208,7 +220,8 @@ def nontrivial_key(rows, i):
 def antecedents(rows):
     """how often the antecedent of every predicate was true on the recorded steps (vacuity)"""
     n = {"ViewExact": 0, "ViewExact@resume": 0, "IdxMonotone": 0, "NoSkip": 0, "ClosedNeverData": 0, "AclCloses": 0,
-         "RestoreCloses": 0, "cached-snapshot": 0, "wildcard-delivery": 0, "connect-delivery": 0}
+         "RestoreCloses": 0, "cached-snapshot": 0, "wildcard-delivery": 0, "connect-delivery": 0,
+         "partly-readable-batch": 0, "rename-with-node-change": 0}
     for i, e in enumerate(rows):
         c = e["cmd"]
         if c["t"] == "next":
@@ -216,6 +229,11 @@ def antecedents(rows):
             x = pre["cl"][c["c"] - 1]
             y = e["post"]["cl"][c["c"] - 1]
             r = e["res"]
+            if r["k"] == "data" and r["item"]["k"] == "ev":
+                denied = e["post"]["deny"].get(x["tok"], [])
+                hidden = [v for v in r["item"]["evs"] if v["ak"] in denied]
+                if hidden and len(hidden) < len(r["item"]["evs"]):
+                    n["partly-readable-batch"] += 1
             if r["k"] == "data" and y["mode"] == "stream":
                 n["ViewExact"] += 1
                 n["IdxMonotone"] += 1
@@ -234,6 +252,11 @@ def antecedents(rows):
         elif c["t"] == "restore":
             if any(x["state"] == "open" for x in pre_of(rows, i)["cl"]):
                 n["RestoreCloses"] += 1
+        elif c["t"] == "commit":
+            w = c["w"]
+            if w["op"] == "put" and w.get("addr") and e["res"].get("n") and e["post"]["queue"] \
+                    and any(v["op"] == "dereg" for v in e["post"]["queue"][-1]["evs"]):
+                n["rename-with-node-change"] += 1
         elif c["t"] == "sub":
             pre = pre_of(rows, i)
             y = e["post"]["cl"][c["c"] - 1]
@@ -354,7 +377,9 @@ def run(tier):
             k += 1
         cov["random"].append({"schedules": T["rnd"][0], "length": length, "seed": seed,
                               "universe": "3 subscribers, 3 nodes x 5 service ids x 3 names, sidecar proxies, 2 resolvers, wildcard, "
-                                          "3 tokens, node deregistration, check status, cache on/off, restores"})
+                                          "3 tokens (two of them restricted in half of the schedules), node deregistration, check "
+                                          "status, node address / node-level check changes inside registrations, multi-service "
+                                          "transactions, cache on/off, restores"})
         return jobs
 
     try:
